@@ -276,6 +276,14 @@ func c06Derivations(c *sim.Case) {
 		c06Headers = map[string]string{"x-request-id": "7f1c0f3e-5b1a-4c55-9d57-0e6f1d2a9b11", "x-forwarded-for": "203.0.113.7", "user-agent": "Mozilla/5.0", "x-b3-traceid": "80f198ee56343ba864fe8b2a57d3eff7"}
 		defer func() { c06Headers = nil }()
 		c.Class("derivations:identical-request-attributes")
+		if sim.Bool(c, "script-like-requests") {
+			// ... and they come from scripts, not from navigations (fetch / XMLHttpRequest): a login they are sent into
+			// has identifiers of its own like any other
+			for k, v := range map[string]string{"x-requested-with": "XMLHttpRequest", "sec-fetch-mode": "cors", "sec-fetch-dest": "empty", "sec-fetch-site": "same-origin", "accept": "application/json"} {
+				c06Headers[k] = v
+			}
+			c.Class("derivations:script-like-requests")
+		}
 	}
 	for i := 0; i < n; i++ {
 		prev := ""
